@@ -3,6 +3,7 @@ import Just.Model.Run
 import Just.Model.Signals
 import Just.Model.Args
 import Just.Model.EnvExport
+import Just.Model.Workdir
 open Lean
 
 namespace Just.Run
@@ -40,3 +41,11 @@ end Just.Args
 namespace Just.EnvExport
 deriving instance FromJson, ToJson for Binding
 end Just.EnvExport
+
+namespace Just.Workdir
+deriving instance FromJson, ToJson for Rel
+deriving instance FromJson, ToJson for Edge
+deriving instance FromJson, ToJson for Search
+deriving instance FromJson, ToJson for Ctx
+deriving instance FromJson, ToJson for Attrs
+end Just.Workdir
